@@ -44,7 +44,9 @@ Tree17(p) == Mk3("a", X(p[1]), "b", Mk2("c", X(p[2]), "d", L(<<X(p[3]), I("7")>>
 Uppers17 == {Null, Single("a", I("2")), Single("b", Single("c", I("3"))), Single("l", L(<<I("9")>>)),
              (* an upper layer may itself bring a marker into a list that exists below *)
              Single("l", L(<<Req>>)), Single("b", Single("d", L(<<I("5"), Req>>))),
-             Single("b", Single("d", L(<<I("5")>>))), Single("z", Req), Mk2("a", I("2"), "b", Mk2("c", I("3"), "d", L(<<I("5")>>)))}
+             Single("b", Single("d", L(<<I("5")>>))), Single("z", Req),
+             (* an explicitly EMPTY list is a value too: it satisfies the marker in the list below it *)
+             Single("l", EmptyList), Single("b", Single("d", EmptyList)), Mk2("l", EmptyList, "n", EmptyList), Mk2("a", I("2"), "b", Mk2("c", I("3"), "d", L(<<I("5")>>)))}
 CasesC17(lazy) ==
   {[layers |-> IF IsNull(u) THEN <<Tree17(p)>> ELSE <<Tree17(p), u>>] : p \in [1..8 -> BOOLEAN], u \in Uppers17}
 
@@ -100,7 +102,11 @@ TypeEdits(t) == { Put(t, "l", L(<<Single("k", S("1")), E2, I("3")>>)), Put(t, "l
                   Put(t, "big", I("9007199254740993")), Put(t, "big", I("9007199254740992")),
                   SetM(t, "ts", I("1700000000000000001")), SetM(t, "ts", I("1700000000000000000")) }
 Pool16 == {Base15, Unrelated} \cup Edits(Base15) \cup KindEdits(Base15) \cup TypeEdits(Base15)
+(* three inputs whose lists share nothing, something, or are empty, in every order: the running result *)
+(* of the first two ([$required] when they differ) meets the third                                     *)
+Lists16 == {L(<<I("1")>>), L(<<I("2")>>), EmptyList, L(<<I("1"), I("2")>>)}
 CasesC16(lazy) == {[inputs |-> <<x, y>>] : x \in Pool16, y \in Pool16}
+            \cup {[inputs |-> <<Mk2("a", I("1"), "l", x), Mk2("a", I("1"), "l", y), Mk2("a", I("1"), "l", z)>>] : x \in Lists16, y \in Lists16, z \in Lists16}
             \cup (IF Bound >= 2 THEN {[inputs |-> <<Base15, x, y>>] : x \in Edits(Base15), y \in {Put(Base15, "a", I("2")), Del(Base15, "a"), SetM(Base15, "y", L(<<I("2"), I("1")>>)), Unrelated}} ELSE {})
 
 ---------------------------------------------------------------------------
